@@ -132,42 +132,92 @@ Theorem C08_load_flags_lost_or_fails : forall s arrays,
 Proof. intros s arrays. split; [exact (vfw_load_spec s arrays)|exact (vfw_load_fails s arrays)]. Qed.
 Print Assumptions C08_load_flags_lost_or_fails.
 
-(* ---- put_chunk is atomic: whatever the writes are, for every crash point, every failing system call and
-   every harmful short write, the final name holds the previous content or the complete new chunk; success is
-   reported only when the new chunk is in place; the temp name is not the final name ---- *)
-Theorem C08_put_atomic : forall base writes trunc meta_ok flt f,
-  fault_in_scope flt trunc ->
-  let r := put_chunk base writes trunc meta_ok flt f in
+(* ---- put_chunk is atomic.  A put is a run of the state machine [exec] over the system calls
+   [creat tmp; write tmp ...; (ftruncate tmp); rename tmp final]; the environment answers EVERY call with
+   ok / the process dies here (a write: after any number of bytes) / the call fails with any exception /
+   SHORT WRITE: write(2) stores only the first n bytes and returns n without raising (file-size limit, quota or
+   full disk reached strictly inside the header or the body, interrupted write, 2 GiB cap).  The writer's reaction
+   to a short count (buffered file object: re-issue the remainder; direct branch: compare with the chunk size and
+   raise) is translated from _write_chunk.  For ALL lists of answers -- hence for every crash point, every failing
+   call, every short-write point (k, n), any number of them and every continuation (the retry succeeds, is short
+   again, fails, the process dies) -- whatever the chunk is split into and whatever the file system held:
+   the final name holds the previous content or the complete new chunk; success is reported only when the new
+   chunk is in place. ---- *)
+Theorem C08_put_atomic : forall base writes trunc meta_ok evs f,
+  let r := put_chunk base writes trunc meta_ok evs f in
   (lookup (final_name base) (snd r) = lookup (final_name base) f
    \/ lookup (final_name base) (snd r) = Some (new_content writes trunc))
   /\ (fst r = Some (Ret tt) -> lookup (final_name base) (snd r) = Some (new_content writes trunc)).
 Proof. exact put_atomic. Qed.
 Print Assumptions C08_put_atomic.
 
+(* the same through put_chunk_noraise, spelled out for a short write at any point: calls 0..k-1 succeed, call k
+   stores n bytes and returns n, anything afterwards.  A failed put never replaces a good chunk by a damaged one
+   and is never reported as success. *)
+Theorem C08_short_write_never_published : forall base writes trunc f k n rest,
+  let r := put_chunk_noraise base writes trunc true (repeat EOk k ++ EShort n :: rest) f in
+  (lookup (final_name base) (snd r) = lookup (final_name base) f
+   \/ lookup (final_name base) (snd r) = Some (new_content writes trunc))
+  /\ (lookup (final_name base) (snd r) <> Some (new_content writes trunc) -> fst r <> Some (Ret None)).
+Proof. intros. apply put_noraise_atomic. Qed.
+Print Assumptions C08_short_write_never_published.
+
 Example C08_put_atomic_nonvacuous :
-  lookup (final_name [97]) (snd (put_chunk [97] [[1; 2]; [3]] None true NoFault [(final_name [97], [9])])) = Some [1; 2; 3]
-  /\ lookup (final_name [97]) (snd (put_chunk [97] [[1; 2]; [3]] None true (Crash 2 [3]) [(final_name [97], [9])])) = Some [9]
-  /\ lookup (tmp_name [97]) (snd (put_chunk [97] [[1; 2]; [3]] None true (Crash 2 [3]) [(final_name [97], [9])])) = Some [1; 2; 3].
-Proof. vm_compute. auto. Qed.
+  let old := [(final_name [97], [9])] in
+  let final r := lookup (final_name [97]) (snd r) in
+  (* healthy *)
+  final (put_chunk [97] [[1; 2]; [3]] None true [] old) = Some [1; 2; 3]
+  (* killed inside the second write *)
+  /\ final (put_chunk [97] [[1; 2]; [3]] None true [EOk; EOk; EDie 1] old) = Some [9]
+  /\ lookup (tmp_name [97]) (snd (put_chunk [97] [[1; 2]; [3]] None true [EOk; EOk; EDie 1] old)) = Some [1; 2; 3]
+  (* short write inside the first buffer, the retry of the remainder fails (file-size limit): reported, old kept *)
+  /\ put_chunk_noraise [97] [[1; 2]; [3]] None true [EOk; EShort 1; EErr B_OSError] old
+     = (Some (Ret (Some K_ChunkNotFound)), [(tmp_name [97], [1]); (final_name [97], [9])])
+  (* short write, the retry succeeds: complete chunk *)
+  /\ final (put_chunk [97] [[1; 2]; [3]] None true [EOk; EShort 1] old) = Some [1; 2; 3]
+  (* direct branch, 3-byte chunk padded to 4: 2 bytes stored -> error; 3 bytes stored -> complete after the cut *)
+  /\ fst (put_chunk [97] [[1; 2; 3; 0]] (Some 3%nat) true [EOk; EShort 2] old) = Some (Raise K_ChunkNotFound)
+  /\ final (put_chunk [97] [[1; 2; 3; 0]] (Some 3%nat) true [EOk; EShort 2] old) = Some [9]
+  /\ final (put_chunk [97] [[1; 2; 3; 0]] (Some 3%nat) true [EOk; EShort 3] old) = Some [1; 2; 3].
+Proof. vm_compute. repeat split. Qed.
+
+(* the statement depends on the translated writer: with the count of a short write thrown away (raw file object,
+   unchecked f.write / os.write) a damaged chunk replaces a good one and success is reported *)
+Theorem C08_ignored_short_write_refutes :
+  let c := {| short_policy := PIgnore; swallow_last_write_error := false |} in
+  let r := put_chunk_cfg c [97] [[1; 2]; [3; 4; 5]] None true [EOk; EOk; EShort 1] [(final_name [97], [9])] in
+  fst r = Some (Ret tt) /\ lookup (final_name [97]) (snd r) = Some [1; 2; 3].
+Proof. exact ignore_policy_publishes_damage. Qed.
 
 Theorem C08_temp_name_never_read : forall b1 b2, reader_base b2 -> tmp_name b1 <> read_name b2.
 Proof. exact tmp_never_read. Qed.
 Print Assumptions C08_temp_name_never_read.
 
-(* a failed put is reported: the failing system call k of the put raises the mapped error out of put_chunk,
-   put_chunk_noraise hands every ChunkStoreError back as an object (and lets anything else propagate), and
-   every OS-level error is such a ChunkStoreError *)
-Theorem C08_put_noraise_reports : forall base writes trunc f k part e,
+(* a failed put is reported: the caller of put_chunk hears nothing only if the process died, and an exception is
+   the mapped error of a call that failed (or the OSError of the short-write check); the first failing system call
+   k raises its mapped error out of put_chunk; put_chunk_noraise hands every ChunkStoreError back as an object (and
+   lets anything else propagate), and every OS-level error is such a ChunkStoreError *)
+Theorem C08_put_noraise_reports : forall base writes trunc f k e rest,
   (k < List.length (put_ops base writes trunc))%nat ->
-  fst (put_chunk base writes trunc true (Fail k part e) f) = Some (Raise (standard_errors (error_map SNpy) e))
-  /\ fst (put_chunk_noraise base writes trunc true (Fail k part e) f) =
+  let evs := repeat EOk k ++ EErr e :: rest in
+  fst (put_chunk base writes trunc true evs f) = Some (Raise (standard_errors (error_map SNpy) e))
+  /\ fst (put_chunk_noraise base writes trunc true evs f) =
      Some (if isinst (standard_errors (error_map SNpy) e) K_ChunkStoreError
            then Ret (Some (standard_errors (error_map SNpy) e)) else Raise (standard_errors (error_map SNpy) e))
   /\ (isinst e B_OSError = true -> isinst (standard_errors (error_map SNpy) e) K_ChunkStoreError = true).
 Proof.
-  intros base writes trunc f k part e Hk.
-  pose proof (put_failure_reported base writes trunc _ f k part e eq_refl Hk) as H1.
-  pose proof (noraise_spec base writes trunc true (Fail k part e) f) as [H2 _]. rewrite H1 in H2.
+  intros base writes trunc f k e rest Hk evs. subst evs.
+  pose proof (put_failure_reported base writes trunc f k e rest Hk) as H1.
+  pose proof (noraise_spec base writes trunc true (repeat EOk k ++ EErr e :: rest) f) as [H2 _]. rewrite H1 in H2.
   split; [exact H1|]. split; [exact H2|]. exact (oserror_is_returned e).
 Qed.
 Print Assumptions C08_put_noraise_reports.
+
+Theorem C08_put_outcome_classified : forall base writes trunc evs f,
+  match fst (put_chunk base writes trunc true evs f) with
+  | None => exists n, In (EDie n) evs
+  | Some (Ret _) => True
+  | Some (Raise e') => exists e, (In (EErr e) evs \/ e = B_OSError) /\ e' = standard_errors (error_map SNpy) e
+  end.
+Proof. exact put_outcome. Qed.
+Print Assumptions C08_put_outcome_classified.
